@@ -14,6 +14,7 @@ const NPD: i128 = 86_400 * NPS;
 
 pub struct Session {
     pub regs: HashMap<&'static str, Val>,
+    pub vals: HashMap<&'static str, Value>,
     pub rng: Rng,
     pub out: NdjsonOut,
     pub i: u64,
@@ -36,7 +37,7 @@ pub fn unit_ns(u: &str) -> i128 {
 
 impl Session {
     pub fn new(path: &str, seed: u64) -> Self {
-        Session { regs: HashMap::new(), rng: Rng::new(seed), out: NdjsonOut::create(path), i: 0 }
+        Session { regs: HashMap::new(), vals: HashMap::new(), rng: Rng::new(seed), out: NdjsonOut::create(path), i: 0 }
     }
 
     pub fn get(&self, r: &str) -> Val {
@@ -58,6 +59,7 @@ impl Session {
             ev.insert("dst".into(), json!(d));
         }
         let evv = Value::Object(ev);
+        let _ = take_last_err();
         let r = exec_guarded(op, &va, &vb, &evv);
         if r.res["k"] == "unknown-op" {
             eprintln!("harness error: unknown op {}", op);
@@ -75,6 +77,18 @@ impl Session {
         };
         ev.insert("i".into(), json!(self.i));
         ev.insert("res".into(), r.res.clone());
+        if let Some(msg) = take_last_err() {
+            ev.insert("msg".into(), chars(&msg));
+        }
+        if let Some(av) = self.vals.get(a) {
+            // the abstract value the operand register was loaded with (only while it is still that value)
+            ev.insert("aval".into(), av.clone());
+        }
+        if dst.is_some() {
+            if let Some(d) = dst {
+                self.vals.remove(d);
+            }
+        }
         self.i += 1;
         self.out.emit(&Value::Object(ev));
         r.res
@@ -92,6 +106,11 @@ impl Session {
             Outcome::Panic(_) => json!({"k": "panic"}),
         };
         self.regs.insert(dst, v);
+        if res["k"] == "ok" {
+            self.vals.insert(dst, val.clone());
+        } else {
+            self.vals.remove(dst);
+        }
         self.out.emit(&json!({"i": self.i, "op": "init", "dst": dst, "val": val, "res": res}));
         self.i += 1;
     }
@@ -223,6 +242,7 @@ pub fn run(scenario: &str, path: &str, n: u64, seed: u64) -> u64 {
         "c09" => scen_c09(&mut s, n),
         "c10" => scen_c10(&mut s, n),
         "c05" => scen_c05(&mut s, n),
+        "c15" => scen_c15(&mut s, n),
         "c07" => scen_c07(&mut s, n),
         _ => {
             eprintln!("unknown scenario {}", scenario);
@@ -468,6 +488,16 @@ fn gen_field_value(s: &mut Session, f: &str) -> i64 {
         "month" | "day" | "doy" => 1,
         _ => 0,
     };
+    let v = gen_field_value_raw(s, f, min, max);
+    if f == "year" {
+        // set_year takes an i32: stay inside its domain
+        v.clamp(i32::MIN as i64, i32::MAX as i64)
+    } else {
+        v
+    }
+}
+
+fn gen_field_value_raw(s: &mut Session, f: &str, min: i64, max: i64) -> i64 {
     match s.rng.below(10) {
         0 => min - 1,
         1 => min,
@@ -633,6 +663,82 @@ fn scen_c07(s: &mut Session, n: u64) {
         s.step("date_months_since", "E", "D", None, json!({}));
         s.step("date_years_since", "D", "E", None, json!({}));
         s.step("date_years_since", "E", "D", None, json!({}));
+    }
+}
+
+fn gen_u32(s: &mut Session, max_valid: u32) -> u32 {
+    match s.rng.below(10) {
+        0 => 0,
+        1 => 1,
+        2 => max_valid.saturating_sub(1),
+        3 => max_valid,
+        4 => max_valid.saturating_add(1),
+        5 => *s.rng.pick(&[2_147_483_647u32, 2_147_483_648, 4_294_967_295, 4_294_967_294, 256, 65_536, 4_294_967_295 - 59, 4_294_881_896]),
+        6 => s.rng.next() as u32,
+        _ => s.rng.below(max_valid as u64 + 1) as u32,
+    }
+}
+
+fn gen_year(s: &mut Session) -> i32 {
+    match s.rng.below(8) {
+        0 => *s.rng.pick(&[0i32, 1, -1, -4, -5, 4, 100, -101, 400, -401, 2000, 2023, 2024, 1900]),
+        1 => *s.rng.pick(&[5_879_611i32, 5_879_612, 5_879_610, -5_879_611, -5_879_612, -5_879_610, i32::MAX, i32::MIN, i32::MAX - 1, i32::MIN + 1]),
+        2 => s.rng.next() as i32,
+        _ => s.rng.range_i64(-3000, 3000) as i32,
+    }
+}
+
+/// C15: fallible constructors and setters over the full argument domains; the Display text of
+/// every error is logged for the range-statement clause (Trace_Bounds).
+fn scen_c15(s: &mut Session, n: u64) {
+    while s.i < n {
+        let (y, m, d) = (gen_year(s), gen_u32(s, 12), gen_u32(s, 31));
+        let (h, mi, se) = (gen_u32(s, 23), gen_u32(s, 59), gen_u32(s, 59));
+        // bias towards tuples where only one argument is invalid
+        let (m, d) = if s.rng.chance(1, 2) { (1 + s.rng.below(12) as u32, d) } else { (m, d) };
+        let (mi, se) = if s.rng.chance(1, 2) { (s.rng.below(60) as u32, s.rng.below(60) as u32) } else { (mi, se) };
+        s.step("date_from_ymd", "A", "A", Some("D"), json!({"y": wide(y), "m": wide(m), "d": wide(d)}));
+        s.step("dt_from_ymd", "A", "A", Some("A"), json!({"y": wide(y), "m": wide(m), "d": wide(d)}));
+        s.step("dt_from_hms", "A", "A", Some("B"), json!({"h": wide(h), "mi": wide(mi), "s": wide(se)}));
+        s.step("time_from_hms", "A", "A", Some("T"), json!({"h": wide(h), "mi": wide(mi), "s": wide(se)}));
+        let (d2, h2) = if s.rng.chance(1, 2) { (1 + s.rng.below(28) as u32, s.rng.below(24) as u32) } else { (d, h) };
+        s.step("dt_from_ymdhms", "A", "A", Some("C"), json!({"y": wide(y), "m": wide(m), "d": wide(d2), "h": wide(h2), "mi": wide(mi), "s": wide(se)}));
+        let secs = gen_u32(s, 86_399);
+        s.step("time_from_seconds", "A", "A", Some("T"), json!({"s": wide(secs)}));
+        let nanos: u64 = match s.rng.below(6) {
+            0 => *s.rng.pick(&[0u64, 1, 86_399_999_999_999, 86_400_000_000_000, 86_400_000_000_001, u64::MAX, 1 << 63, 1 << 32, (1 << 32) + 5]),
+            1 => s.rng.next(),
+            _ => s.rng.below(86_400_000_000_000),
+        };
+        s.step("time_from_nanos", "A", "A", Some("T"), json!({"n": wide(nanos)}));
+        let osec: i32 = match s.rng.below(5) {
+            0 => *s.rng.pick(&[86_399i32, 86_400, -86_399, -86_400, i32::MAX, i32::MIN, 0, 1, -1]),
+            1 => s.rng.next() as i32,
+            _ => s.rng.range_i64(-90_000, 90_000) as i32,
+        };
+        s.step("off_from_seconds", "A", "A", None, json!({"s": wide(osec)}));
+        let oh: i32 = match s.rng.below(5) {
+            0 => *s.rng.pick(&[23i32, 24, -23, -24, i32::MAX, i32::MIN, 0]),
+            1 => s.rng.next() as i32,
+            _ => s.rng.range_i64(-25, 25) as i32,
+        };
+        s.step("off_from_hms", "A", "A", None, json!({"h": wide(oh), "mi": wide(mi), "s": wide(se)}));
+        // setters on a freshly loaded value (its abstract value is logged as `aval`)
+        let a = s.dt_val(true);
+        s.init("A", a);
+        let f = *s.rng.pick(&DT_SET_FIELDS);
+        let v = gen_field_value(s, f);
+        s.step("dt_set", "A", "A", Some("B"), json!({"f": f, "v": field_arg(f, v)}));
+        let t = s.time_val(true);
+        s.init("T", t);
+        let f = *s.rng.pick(&DT_SET_FIELDS[4..]);
+        let v = gen_field_value(s, f);
+        s.step("time_set", "T", "T", Some("U"), json!({"f": f, "v": field_arg(f, v)}));
+        let dd = s.date_val();
+        s.init("D", dd);
+        let f = *s.rng.pick(&DT_SET_FIELDS[..4]);
+        let v = gen_field_value(s, f);
+        s.step("date_set", "D", "D", Some("E"), json!({"f": f, "v": field_arg(f, v)}));
     }
 }
 
